@@ -262,11 +262,13 @@ pub fn long_stream(cfg: StreamCfg, len_lo: usize, len_hi: usize) -> BoxedStrateg
 pub fn window(tier: Tier, lo: usize, hi_quick: usize, hi_thorough: usize) -> BoxedStrategy<usize> {
     let hi = tier.pick(hi_quick, hi_thorough).max(lo);
     let small_hi = (lo + 8).min(hi);
-    let specials: Vec<usize> = [16usize, 31, 32, 33, 64, 65, 127, 128].iter().copied().filter(|v| *v >= lo && *v <= hi).collect();
+    // powers of two and their neighbours, also beyond the quick tier's range (up to the thorough bound): a defect that only
+    // concerns long windows (a narrow integer type, a buffer sized for "typical" lengths, a threshold on N) must not need the thorough tier
+    let specials: Vec<usize> = [16usize, 31, 32, 33, 64, 65, 100, 127, 128, 129, 200, 255, 256, 257].iter().copied().filter(|v| *v >= lo && *v <= hi_thorough.max(hi).min((4 * hi).max(64))).collect();
     if specials.is_empty() {
         prop_oneof![5 => lo..=small_hi, 3 => lo..=hi].boxed()
     } else {
-        prop_oneof![5 => lo..=small_hi, 1 => proptest::sample::select(specials), 3 => lo..=hi].boxed()
+        prop_oneof![15 => lo..=small_hi, 1 => proptest::sample::select(specials), 9 => lo..=hi].boxed()
     }
 }
 
